@@ -653,7 +653,7 @@ func main() {
 	}
 	writeB := func(skip []bool) error {
 		var b strings.Builder
-		b.WriteString("package tgt\n\nimport (\n" + impLines.String() + "\t\"" + modPath + "/verifkit\"\n)\n\n" + uses + "\n")
+		b.WriteString("package tgt\n\nimport (\n" + impLines.String() + "\t\"" + modPath + "/verifkit\"\n)\n\n" + uses + "var _ = verifkit.CheckValue // every case of the batch may have been skipped\n\n")
 		// the want side uses its own fixed import names
 		b.WriteString("//want-imports\n")
 		for i, v := range vals {
